@@ -98,7 +98,7 @@ def _kf_namespace(values, param, pidx, exc, site, symbolic, h):
     ns['startswith'] = startswith
     ns['v'] = values
     for k, val in values.items():
-        if k.isidentifier():
+        if k.isidentifier() and k not in ns:
             ns[k] = val
     return ns
 
